@@ -629,6 +629,31 @@ fn thr_u8(bg: usize, _rows: usize) -> Vec<u8> {
 // tail clause (shares the C01 shape loop)
 // ---------------------------------------------------------------------------
 
+/// Tail clause on `ScoringMatrix::reverse_complement()` of the case's matrix (DNA). Returns the first failure with
+/// the ORIGINAL case (the replay recomputes the reverse complement through the library).
+fn tail_rc(case: &c01::Case, set: &[Cfg]) -> Option<(String, String, c01::Case)> {
+    let lib = catch(|| {
+        let rc = model::scoring::<Dna>(&case.matrix).reverse_complement();
+        rc.matrix().iter().map(|r| r.to_vec()).collect::<Vec<Vec<f32>>>()
+    });
+    let rows = match lib {
+        Ok(r) => r,
+        Err(p) => return Some((format!("panic {}", vx_core::util::panic_class(&p)), format!("reverse_complement panicked: {}", p), case.clone())),
+    };
+    let neg = |m: &Vec<Vec<f32>>| m.iter().all(|r| r[4] == f32::NEG_INFINITY);
+    if neg(&case.matrix) && !neg(&rows) {
+        let bad = rows.iter().position(|r| r[4] != f32::NEG_INFINITY).unwrap_or(0);
+        return Some((
+            "wildcard column not -inf".into(),
+            format!("the matrix has a -inf wildcard column but row {} of its reverse_complement() holds {} there", bad, rows[bad][4]),
+            case.clone(),
+        ));
+    }
+    let rc_case = c01::Case { matrix: rows, origin: format!("{} reverse-complemented by the library", case.origin), ..case.clone() };
+    let o = c01::check_case::<Dna>(&rc_case, set, true);
+    o.tail_failures.into_iter().next().map(|(sig, msg, cfg)| (format!("{} {}", cfg.map(|c| c.name()).unwrap_or("-"), sig), msg, case.clone()))
+}
+
 fn run_tail(ctx: &mut Ctx, rep: &mut Report, base: &mut u64) {
     let lens: Vec<usize> = if ctx.quick() {
         let mut v: Vec<usize> = (0..=130).collect();
@@ -658,6 +683,7 @@ fn run_tail(ctx: &mut Ctx, rep: &mut Report, base: &mut u64) {
                         wrap_override: None,
                         spare_rows: 0,
                         trimmed_rows: 0,
+                        cloned: 0,
                     };
                     let set = [Cfg::GenU32, Cfg::GenU4, Cfg::SseU16, Cfg::SseU32, Cfg::AvxU32, Cfg::DispGen, Cfg::DispSse, Cfg::DispAvx];
                     let o = if alpha == "dna" { c01::check_case::<Dna>(&case, &set, true) } else { c01::check_case::<Protein>(&case, &set, true) };
@@ -673,6 +699,18 @@ fn run_tail(ctx: &mut Ctx, rep: &mut Report, base: &mut u64) {
                             j["kind"] = json!("tail");
                             j
                         });
+                    }
+                    // the reverse-strand matrix is one of "the library's conversions": its wildcard column must still be
+                    // -inf, and the tail clause must hold when scoring with it
+                    if alpha == "dna" && (kind == "logodds" || m <= 3) {
+                        if let Some((sig, msg, rc_case)) = tail_rc(&case, &set) {
+                            rep.violation(format!("C07 tail dna reverse-complement {}", sig), msg, || {
+                                let mut j = rc_case.json(None);
+                                j["kind"] = json!("tail_rc");
+                                j
+                            });
+                        }
+                        rep.eval_distinct(l >= m);
                     }
                 }
             }
@@ -792,7 +830,8 @@ pub fn run(ctx: &mut Ctx, rep: &mut Report) {
     if ctx.wants("tail") {
         rep.space(
             "tail",
-            "clause 2: for matrices whose wildcard column is -inf, every float cell past the last valid position is -inf and StripedScores::max() is the best valid score; \
+            "clause 2: for matrices whose wildcard column is -inf, every float cell past the last valid position is -inf, the largest cell of the score matrix is the best valid position's score (an empty matrix while a valid position exists is a violation) and StripedScores::max() is that score; \
+             for DNA also on ScoringMatrix::reverse_complement() of the matrix (one of the library's conversions: its wildcard column must still be -inf); \
              product L (0..=130 + vector/transposition boundaries; thorough 0..=400 + more) x M {1,2,3,8,34} x 3 matrix kinds x {DNA,protein} x 8 configurations incl. dispatcher arms; non-trivial = L>=M and L not a multiple of 32",
         );
         run_tail(ctx, rep, &mut base);
@@ -811,6 +850,14 @@ pub fn replay(_ctx: &mut Ctx, rep: &mut Report, v: &Value) {
             rep.eval_distinct(true);
             if let Err((sig, msg)) = tail_reuse_one(cfg, &h) {
                 rep.violation(sig, msg, || v.clone());
+            }
+        }
+        "tail_rc" => {
+            let case = c01::Case::from_json(v);
+            let set = [Cfg::GenU32, Cfg::GenU4, Cfg::SseU16, Cfg::SseU32, Cfg::AvxU32, Cfg::DispGen, Cfg::DispSse, Cfg::DispAvx];
+            rep.eval_distinct(true);
+            if let Some((sig, msg, c)) = tail_rc(&case, &set) {
+                rep.violation(format!("C07 tail dna reverse-complement {}", sig), msg, || c.json(None));
             }
         }
         "tail" => {
